@@ -185,10 +185,14 @@ def variants_stream(ctx, name, make, count, p_choices=(1, 2, 3), n_range=(36, 70
             lab = np.sort(np.asarray([rng.randrange(0, n // 2) for _ in range(n)]))
             idx = pd.Index(lab) if kind == "int-repeats" else pd.DatetimeIndex(pd.Timestamp("2024-01-01") + pd.to_timedelta(lab, unit="h"))
             try:
+                idx = idx.rename("time")
                 Xd = pd.DataFrame(Xn.copy(), index=idx)
                 d = make().fit(Xd)
                 out = _outputs(d, Xd)
                 same(out, "dup-index:" + kind, index=idx)
+                t_named = d.transform(Xd)
+                if Xd.index.name != "time" or t_named.index.name != "time":
+                    fail("index-name", f"the index of X is called 'time': after predict / transform the caller's index is called {Xd.index.name!r} and the dense output's {t_named.index.name!r}")
             except Exception as ex:
                 fail("dup-index:" + kind, f"raised {type(ex).__name__}: {str(ex)[:120]} (sktime accepts a non-decreasing index with repeated labels)")
         # ---- columns sharing a label ----
